@@ -315,6 +315,71 @@ def environment_purity(chk, work):
                'hourly records must be identical in every one', mismatches=bad, branches=kinds)
 
 
+def host_setting_purity(chk, work):
+    """(f2) settings of the HOST application as hidden inputs: the decimal context of the thread (rounding mode,
+    precision, traps), the `warnings` filters (-W error, PYTHONWARNINGS, simplefilter), LC_NUMERIC, interpreter settings.
+    None of them is a parameter or part of the rural file: a fresh model must write the same bytes and hold the same
+    records in an interpreter where the host has changed them at start-up."""
+    import x1_util as X1
+    rng = chk.rng
+    quick = chk.tier == 'quick'
+    cfgs = [dict(nday=1, dtsim=300, month=rng.choice([1, 4, 7, 10]), day=rng.randint(1, 28), sensanth=rng.choice([5, 20]))]
+    if not quick:
+        cfgs += [dict(nday=2, dtsim=300, month=2, day=28, epw_precision=3),
+                 dict(nday=1, dtsim=200, month=12, day=31, epw_precision=0)]
+    bad = nruns = 0
+    kinds = {}
+    for ci, cfg in enumerate(cfgs):
+        d0 = os.path.join(work, 'host%d' % ci)
+        os.makedirs(d0, exist_ok=True)
+        ref = run_full(cfg, d0, 'ref.epw')
+        ref_bytes = open(os.path.join(d0, 'ref.epw'), 'rb').read()
+        members = X1.host_members(rng, 8 if quick else len(X1.HOST_SETTINGS))
+        env = dict(os.environ, UWG_REPO_=core.REPO, UWG_REPO=core.REPO, HARNESS_=os.path.join(core.VERIF, 'harness'),
+                   CFG_=repr(cfg), OUT_=d0, PYTHONDONTWRITEBYTECODE='1')
+        res = X1.run_host_children(members, CHILD_ENV_RUN, env,
+                                   per_member_env=lambda k, mb: {'OUTNAME_': 'm%d.epw' % k})
+        for k, (mb, rc, so, se) in enumerate(res):
+            nruns += 1
+            kinds[mb['kind']] = kinds.get(mb['kind'], 0) + 1
+            line = [l for l in so.split('\n') if l.startswith('RESULT ')]
+            case = {'params': cfg, 'host setting': mb['label'],
+                    'start-up code of the host': mb.get('code', ''), 'interpreter flags': mb.get('argv', []),
+                    'environment variables': mb.get('env', {}),
+                    'how': 'fresh interpreter: [python] + flags + -c (x1_util.HOST_PRELUDE: the start-up code, before '
+                           'anything of uwg is imported) + new_model; generate; simulate; write_epw'}
+            if rc != 0 or not line:
+                if ('uwg' + os.sep in se and 'Traceback' in se) or 'uwg' in se.split('Traceback')[-1]:
+                    bad += 1
+                    if bad <= 3:
+                        chk.violation('impl-violation', 'purity: a fresh model fails under a setting of the host application (%s)'
+                                      % mb['label'], case=case, observed=se[-600:],
+                                      expected='the same results as in this process')
+                    continue
+                raise core.Infra('host-setting child process failed (%s): %s' % (mb['label'], se[-400:]))
+            got = tuple(line[0].split()[1:3])
+            if got != ref:
+                bad += 1
+                if bad <= 3:
+                    what = 'weather file' if got[0] != ref[0] else 'hourly records'
+                    obs = {'sha256(file, records)': got}
+                    if got[0] != ref[0]:
+                        obs.update(first_difference(open(os.path.join(d0, 'm%d.epw' % k), 'rb').read(), ref_bytes))
+                    chk.violation('impl-violation', 'purity: the %s of a fresh model depends on a setting of the host '
+                                  'application (%s)' % (what, mb['label']), case=case, observed=obs,
+                                  expected={'sha256(file, records)': ref,
+                                            'of': 'the same parameters run in this process (default settings)'})
+    chk.direct('host-settings-as-hidden-inputs(decimal context, warnings filters, LC_NUMERIC, interpreter settings)', nruns, nruns,
+               'the same parameters and rural file run in fresh interpreters in which the HOST application has, at start-up '
+               'and before importing uwg, changed a process- / thread-wide Python setting: the decimal context (rounding '
+               'ROUND_DOWN / ROUND_FLOOR / ROUND_CEILING / ROUND_UP / ROUND_05UP / ROUND_HALF_DOWN, prec 3 / 6, BasicContext, '
+               'traps Inexact + Rounded, Emax 9, DefaultContext), warnings as errors (python -W error, PYTHONWARNINGS=error, '
+               'warnings.simplefilter) and -X dev -W always, LC_NUMERIC with a decimal comma, sys.set_int_max_str_digits / '
+               'recursion limit / gc disabled / switch interval, -X utf8=0 -B (quick: 8 of the 14, at least two decimal and two '
+               'warnings members; thorough: all, also at epw_precision 0 and 3). Written bytes and hourly records must equal '
+               'the run in this process', mismatches=bad, branches=kinds)
+
+
 def circumstance_purity(chk, work):
     """(g) circumstances that are neither a parameter nor part of the rural file (harness/generic.py, applied through
     u1_util): the output of a fresh model must not depend on who looks at the objects, on the logging level, on the
@@ -572,6 +637,7 @@ def run(chk):
     import w1_util as W1
     W1.boundary_family(chk, work)
     environment_purity(chk, work)
+    host_setting_purity(chk, work)
     circumstance_purity(chk, work)
     size_sequences(chk, work)
     chk.assumptions.append('CPython, pickle and the OS are trusted; the theorem is about the abstract world '
